@@ -51,10 +51,95 @@ class Kernel:
 class KTr:
     """translator of one kernel"""
 
-    def __init__(self, fns, kernels, consts, fd, self_attrs=False, complex_arrays=()):
-        self.fns, self.kernels, self.consts, self.fd = fns, kernels, consts, fd
+    def __init__(self, fns, kernels, consts, fd, self_attrs=False, complex_arrays=(), dims2=()):
+        self.fns, self.kernels, self.consts = fns, kernels, consts
         self.self_attrs = self_attrs
         self.complex_arrays = set(complex_arrays)
+        self.dims2 = set(dims2)          # names of 2-d (C-contiguous) array parameters
+        self.shape_params = []           # extra Int parameters  <arr>_shape<k>
+        self.uses_cpowi = False          # the kernel uses complex ** int (library operation: a parameter `cpowi`)
+        self.fd = self.eliminate_views(fd)
+
+    # ------------------------------------------------------------------ numpy views -> direct accesses
+    def eliminate_views(self, fd):
+        """`x = A[i]` (row of a 2-d array) and `f = B[i:i+1]` (one-element view) are numpy views: every later use of
+        `x[e]`, `f[0]`, `f op= v` is rewritten to the access of A / B it denotes, and the defining statement dropped.
+        `A.shape[k]` becomes the integer parameter `A_shape<k>`."""
+        import copy
+        fd = copy.deepcopy(fd)
+        outer = self
+
+        class Sh(ast.NodeTransformer):
+            def visit_Subscript(s2, node):
+                node = s2.generic_visit(node)
+                v = node.value
+                if isinstance(v, ast.Attribute) and v.attr == "shape" and isinstance(v.value, ast.Name) \
+                        and isinstance(node.slice, ast.Constant) and isinstance(node.slice.value, int):
+                    n = f"{v.value.id}_shape{node.slice.value}"
+                    if lean_ident(n) not in outer.shape_params:
+                        outer.shape_params.append(lean_ident(n))
+                    return ast.copy_location(ast.Name(id=n, ctx=ast.Load()), node)
+                return node
+        fd = Sh().visit(fd)
+
+        def rewrite_expr(node, al):
+            class R(ast.NodeTransformer):
+                def visit_Subscript(s2, n):
+                    if isinstance(n.value, ast.Name) and n.value.id in al:
+                        n.slice = s2.visit(n.slice)
+                        kind, arr, idx = al[n.value.id]
+                        if kind == "row":
+                            return ast.copy_location(ast.Subscript(value=ast.Name(id=arr, ctx=ast.Load()),
+                                                                   slice=ast.Tuple(elts=[copy.deepcopy(idx), n.slice], ctx=ast.Load()), ctx=n.ctx), n)
+                        if kind == "elem":
+                            if not (isinstance(n.slice, ast.Constant) and n.slice.value == 0):
+                                raise TranslationError(f"one-element view {n.value.id} indexed with {ast.unparse(n.slice)}")
+                            return ast.copy_location(ast.Subscript(value=ast.Name(id=arr, ctx=ast.Load()), slice=copy.deepcopy(idx), ctx=n.ctx), n)
+                    return s2.generic_visit(n)
+
+                def visit_Name(s2, n):
+                    if n.id in al and isinstance(n.ctx, ast.Load):
+                        raise TranslationError(f"view {n.id} used as a whole")
+                    return n
+            return R().visit(node)
+
+        def block(stmts, al):
+            out = []
+            al = dict(al)
+            for st in stmts:
+                if isinstance(st, ast.Assign) and len(st.targets) == 1 and isinstance(st.targets[0], ast.Name) and isinstance(st.value, ast.Subscript) \
+                        and isinstance(st.value.value, ast.Name):
+                    arr, sl = st.value.value.id, st.value.slice
+                    if lean_ident(arr) in outer.dims2 and not isinstance(sl, (ast.Tuple, ast.Slice)):
+                        al[st.targets[0].id] = ("row", arr, sl)
+                        continue
+                    if isinstance(sl, ast.Slice) and sl.step is None and sl.lower is not None and sl.upper is not None \
+                            and ast.unparse(sl.upper) == ast.unparse(ast.BinOp(left=sl.lower, op=ast.Add(), right=ast.Constant(value=1))):
+                        al[st.targets[0].id] = ("elem", arr, sl.lower)
+                        continue
+                if isinstance(st, ast.AugAssign) and isinstance(st.target, ast.Name) and st.target.id in al and al[st.target.id][0] == "elem":
+                    _, arr, idx = al[st.target.id]
+                    tgt = ast.Subscript(value=ast.Name(id=arr, ctx=ast.Load()), slice=copy.deepcopy(idx), ctx=ast.Store())
+                    out.append(ast.copy_location(ast.AugAssign(target=tgt, op=st.op, value=rewrite_expr(st.value, al)), st))
+                    continue
+                if isinstance(st, ast.For):
+                    for nm, (_, _, idx) in al.items():
+                        if isinstance(st.target, ast.Name) and st.target.id in {x.id for x in ast.walk(idx) if isinstance(x, ast.Name)}:
+                            raise TranslationError(f"loop variable {st.target.id} rebinds the index of view {nm}")
+                    st.iter = rewrite_expr(st.iter, al)
+                    st.body = block(st.body, al)
+                    out.append(st)
+                    continue
+                if isinstance(st, ast.If):
+                    st.test = rewrite_expr(st.test, al)
+                    st.body = block(st.body, al)
+                    st.orelse = block(st.orelse, al)
+                    out.append(st)
+                    continue
+                out.append(rewrite_expr(st, al))
+            return out
+        fd.body = block(fd.body, {})
+        return ast.fix_missing_locations(fd)
         self.kinds = {}
         self.fresh = 0
 
@@ -97,6 +182,8 @@ class KTr:
                             arrs.add(s)
                             changed = True
         kinds = {}
+        for p in self.shape_params:
+            kinds[p] = INT
         for p in params:
             if p in cx:
                 kinds[p] = CX
@@ -147,6 +234,8 @@ class KTr:
         if isinstance(e, ast.BinOp):
             if isinstance(e.op, ast.Pow) and self.is_minus_one(e.left) and self.typeof(e.right) == INT:
                 return INT   # (-1)**k : +-1 (Python gives a float for negative k; the value is the same after conversion)
+            if isinstance(e.op, ast.Pow) and self.typeof(e.left) == CX and self.typeof(e.right) == INT:
+                return CX
             a, b = self.typeof(e.left), self.typeof(e.right)
             if a not in (INT, FLT, CX) or b not in (INT, FLT, CX):
                 raise TranslationError(f"arithmetic on {a}/{b}: {ast.unparse(e)}")
@@ -225,6 +314,9 @@ class KTr:
             return f"(Cx.conj {self.cexpr(e.func.value)})"
         if isinstance(e, ast.UnaryOp) and isinstance(e.op, ast.UAdd):
             return self.cexpr(e.operand)
+        if isinstance(e, ast.BinOp) and isinstance(e.op, ast.Pow):
+            self.uses_cpowi = True
+            return f"(cpowi {self.cexpr(e.left)} {self.iexpr(e.right)})"
         if isinstance(e, ast.BinOp):
             a, b = self.typeof(e.left), self.typeof(e.right)
             if isinstance(e.op, ast.Mult):
@@ -296,6 +388,20 @@ class KTr:
 
     def index(self, sub):
         idx = sub.slice
+        if isinstance(idx, ast.Tuple):
+            a = lean_ident(sub.value.id)
+            if a not in self.dims2 or len(idx.elts) != 2:
+                raise TranslationError(f"multi-index {ast.unparse(sub)}")
+            for e in idx.elts:
+                if self.typeof(e) != INT:
+                    raise TranslationError(f"non-integer index {ast.unparse(sub)}")
+            nc = f"{a}_shape1"
+            if nc not in self.shape_params:
+                self.shape_params.append(nc)
+                self.kinds[nc] = INT
+            return f"(({self.iexpr(idx.elts[0])}) * {nc} + ({self.iexpr(idx.elts[1])}))"
+        if lean_ident(sub.value.id) in self.dims2:
+            raise TranslationError(f"2-d array indexed with one index: {ast.unparse(sub)}")
         if self.typeof(idx) != INT:
             raise TranslationError(f"non-integer index {ast.unparse(sub)}")
         return self.iexpr(idx)
@@ -626,12 +732,16 @@ class KTr:
             self.undetermined = set(params)
             self.kinds = {}
         lines = self.block(fd.body, ["st"], 1, set())
-        allp = list(self.attr_params) + params
+        allp = list(self.attr_params) + params + list(self.shape_params)
+        for p in self.shape_params:
+            self.kinds[p] = INT
         for p in allp:
             if p not in self.kinds:
                 raise TranslationError(f"kind of parameter {p} of {fd.name} undetermined")
         name = lean_ident(lean_name or fd.name)
         ps = " ".join(f"({p} : {LEAN_TY[self.kinds[p]]})" for p in allp)
+        if self.uses_cpowi:
+            ps += " (cpowi : Cx α → Int → Cx α)"
         src = ast.get_source_segment(self.src_text, fd) if getattr(self, "src_text", None) else None
         text = f"def {name} {ps} (st : φ) : φ :=\n" + "\n".join(lines) + "\n"
         return Kernel(nfkc(fd.name) if lean_name is None else lean_name, allp, {p: self.kinds[p] for p in allp}), text
@@ -732,6 +842,24 @@ def generate_fillkern(fns, gen_dir, write_if_changed):
     out.append("end\nend Gen\n")
     write_if_changed(os.path.join(gen_dir, "FillKern.lean"), "\n".join(out))
     return {k.name: [(p, k.kinds[p]) for p in k.params] for k in kernels.values()}
+
+
+def generate_hornerkern(fns, gen_dir, write_if_changed):
+    wpath = "spherical/wigner.py"
+    wtree = ast.parse(open(os.path.join(REPO, wpath), encoding="utf-8").read())
+    out = [FILL_HEADER.format(src="spherical/wigner.py (_evaluate_Horner)").replace(
+        "The kernels that turn the H wedge into results", "The Horner evaluation kernel")]
+    consts = module_constants(wtree, {"inverse_4pi"})
+    if "inverse_4pi" in consts and nfkc(ast.unparse(consts["inverse_4pi"])) != "1.0 / (4 * np.pi)":
+        raise TranslationError(f"inverse_4pi = {ast.unparse(consts['inverse_4pi'])}")
+    fd = find_function(wtree, "_evaluate_Horner")
+    # element kinds / ranks that the Python text cannot show (numba takes them from the run-time arguments `Wigner.evaluate`
+    # passes: complex128 weights reshaped to 2-d, a 1-d complex output)
+    k, txt = KTr(fns, {}, {"inverse_4pi"}, fd, complex_arrays={"mode_weights", "function_values"}, dims2={"mode_weights"}).translate()
+    out.append(txt)
+    out.append("end\nend Gen\n")
+    write_if_changed(os.path.join(gen_dir, "HornerKern.lean"), "\n".join(out))
+    return {k.name: [(p, k.kinds[p]) for p in k.params]}
 
 
 def table_defs(wtree, fns):
